@@ -140,6 +140,15 @@ def run(out, tier):
         out.violation("the closed recurrence calls(n) = 1 + sum calls(successors) disagrees with Select.paths_c on %s" % dp_bad[:3],
                       {"correspondence": "paths_c vs recurrence", "graphs": dp_bad[:5]}, no_input=True)
 
+    # the visited traversals return exactly the de-duplicated path enumerations (their correctness is tested, not proved)
+    small = [(name, g, top, bottom) for fam, name, g, top, bottom in rows if paths_calls(g, top) <= 5000 and paths_calls(g, bottom, rev=True) <= 5000]
+    _, so, _ = vlib.run_lines(drv, ["sets\t%s\t%d\t%d" % (sl.graphspec(g), top, bottom) for name, g, top, bottom in small])
+    for (name, g, top, bottom), o in zip(small, so):
+        f = o.split("\t") + ["", "", "", ""]
+        if f[1] != f[2] or f[3] != f[4]:
+            out.violation("model: visited traversal and de-duplicated path enumeration differ on %s: %s" % (name, o),
+                          {"correspondence": "Select.ancestors_visited/descendants_visited vs ancestors_set/descendants_set", "graph": sl.graphspec(g)}, no_input=True)
+
     # implementation
     inproc = True
     impl = [None] * len(rows)
@@ -202,9 +211,10 @@ def run(out, tier):
                 if ch:
                     j = ch[0]
                     chain_txt = "; %s costs %d" % (rows[j][1], impl[j][a])
-                text = "class=%s %s makes %d calls on %s (V=%d, E=%d; 4*(V+E+1)^2 = %d)%s; the count equals the number of dependency paths + 1 " \
-                       "(Select.%s) on every graph of the run" % (CLASSES[a], WHERE[a], c, name, V, E, bound(V, E), chain_txt,
-                                                                  {"select": "select_paths_cost", "ancestors": "ancestors_paths_cost", "descendants": "descendants_paths_cost"}[a])
+                text = "class=%s %s makes %d calls on %s (V=%d, E=%d; 4*(V+E+1)^2 = %d)%s; the count is the number of dependency paths + 1 " \
+                       "(Select.%s)%s" % (CLASSES[a], WHERE[a], c, name, V, E, bound(V, E), chain_txt,
+                                          {"select": "select_paths_cost", "ancestors": "ancestors_paths_cost", "descendants": "descendants_paths_cost"}[a],
+                                          ", as on all %d graphs of the run" % len(rows) if variant == "paths" else "")
                 rp = {"algorithm": a, "graph_name": name, "graph": sl.graphspec(g), "from_node": top if a != "descendants" else bottom,
                       "calls": c, "V": V, "E": E, "bound": bound(V, E), "model_paths": model[i]["paths"][a], "model_visited_cost": model[i]["visited"][a],
                       "harness_line": "cost\t%s\t%d\t%d" % (sl.graphspec(g), top, bottom)}
